@@ -18,10 +18,10 @@ REFI = "Trusts the harness's reference unifier/interpreter (model/*.rs, small an
 # id -> (technique, level text, level note)
 TABLE = {
  "C01": (PBT + " against a reference Robinson unifier; exhaustive pairs of terms up to size 4 in thorough",
-         "Generated term pairs with prior bindings (mutation-derived so that unifiable, near-miss and occurs-check cases are frequent) are unified by State::unify and by queries; success, cycle-freedom, equality of both sides, most-generality (image isomorphic to the reference mgu; instances accepted, non-unifiers rejected) and symmetry are checked. Exploration: agreement on everything generated, no proof.",
+         "Generated term pairs with prior bindings (mutation-derived so that unifiable, near-miss and occurs-check cases are frequent) are unified by State::unify and by queries; success, cycle-freedom, equality of both sides, most-generality (image isomorphic to the reference mgu; instances accepted, non-unifiers rejected) and symmetry are checked. A scale family does the same with one large dimension (spines of up to 400/2000 levels in six shapes, chains of up to 400 var-var equations in several posting orders). Exploration: agreement on everything generated, no proof.",
          REFI),
  "C02": (PBT + " against a reference interpreter with un-normalised disequalities, ground-instance membership, conjunct permutation, and an interpreter-free brute-force oracle for flat programs",
-         "Pure tree programs (==, !=, conde, fresh, subsuming-pair motif) are run and compared as multisets of ground-instance sets with the reference, tuple by tuple with `q == g` extensions, under permutations of every conjunction, and (flat programs) with brute-force evaluation over U^n. Exploration.",
+         "Pure tree programs (==, !=, conde, fresh, subsuming-pair motif) are run and compared as multisets of ground-instance sets with the reference, tuple by tuple with `q == g` extensions, under permutations of every conjunction, and (flat programs) with brute-force evaluation over U^n. A scale family keeps up to 400/2000 disequalities alive in the store, with subsumption events and deciding bindings aimed at one stored constraint, judged by the ground formula. Exploration.",
          REFI),
  "C03": (PBT + " with per-answer invariants (closedness, constraint relevance by own traversal) and a reference interpreter for sharing/distinctness of reified variables",
          "Every answer of generated list/compound programs is checked for `_`-only variables, constraints over answer variables only, LResult::constraints() completeness through lists and compounds, and equivalence with the reference answer. Exploration.",
@@ -30,22 +30,22 @@ TABLE = {
          "Generated tree programs and flat CLP(FD) programs (with an inserted disjunction) are run as written and under up to 6 permutations of all goal lists and clause lists; answer multisets (instance-set equivalence / ground tuples) must agree. Exploration.",
          "Implementation compared with itself under reordering; no reference model needed."),
  "C05": (PBT + " against a reference depth-first interpreter, position by position, observed through a ticket fngoal (engine order) and at the iterator",
-         "Generated search programs (nested cond/conjunction/fresh/closure, list relations on literal lists) wrapped in dfs{}: the order in which states leave the depth-first block and the order at the iterator must both equal the reference's Prolog order. Exploration.",
+         "Generated search programs (nested cond/conjunction/fresh/closure, list relations on literal lists) wrapped in dfs{}: the order in which states leave the depth-first block and the order at the iterator must both equal the reference's Prolog order. A scale family uses disjunctions of up to 400 clauses, chains of up to 200 binary choice points and recursive relations (also recursive-clause-first and non-tail-recursive ones) over literal lists of up to 400/2000 elements. Exploration.",
          REFI),
  "C06": (PBT + ": differential interleaving vs depth-first vs reference interpreter (finite trees); soundness of bounded prefixes of infinite streams against reference set semantics",
-         "Finite search programs must have equal answer multisets under interleaving search, under dfs{} and in the reference; for programs with infinite producers ground instances of the first 25 answers must be solutions. Exploration.",
+         "Finite search programs must have equal answer multisets under interleaving search, under dfs{} and in the reference; for programs with infinite producers ground instances of the first 25 answers must be solutions. The scale family of C05 is reused for the finite comparison. Exploration.",
          REFI),
  "C07": (PBT + ": bounded liveness in engine steps (step-counter hook): obligations from each branch run alone must appear in the whole disjunction within a generous step bound",
          "Disjunctions mixing finite goals, infinite producers and silent divergers at several nesting positions; each branch's first answers (run alone) must be produced by the whole disjunction within 256x their cost + 10000 steps (10x confirm run). Decides starvation/divergence, not mere slowness. Exploration.",
          "Needs the cfg-guarded step counter in StreamEngine::step; bounded liveness only."),
  "C08": (PBT + ": metamorphic relation between a committed-choice program and the program with the committed head (conda) or its first head answer re-imposed (condu/onceo); reference interpreter for conda and matcha/matchu",
-         "conda/condu/onceo over generated heads with 0/1/many/lazy/infinite answers and generated rest goals; matcha/matchu built dynamically. Exploration.",
+         "conda/condu/onceo over generated heads with 0/1/many/lazy/infinite answers and generated rest goals; matcha/matchu built dynamically; conda over finite-domain posting sequences cut into prefix | head | rest; heads whose first answer needs up to millions of engine steps (scale). Exploration.",
          REFI),
  "C09": (PBT + ": run-to-run differential (same Query object twice, 4 rebuilt runs, 2 re-exec'd child processes with fresh hash seeds), fusedness invariant, bounded-step laziness check",
          "Canonical answer sequences of tree, search and CLP(FD) programs must be identical position by position across repeated runs and processes; the iterator must stay None; take(n) of productive infinite programs must finish within a step budget. Exploration; hash seeds are sampled, not enumerated.",
          "std RandomState cannot be controlled from outside: other processes' seeds are sampled. Needs the step-counter hook for the laziness half."),
  "C10": (PBT + ": metamorphic relation - conde{A,B[,C]} after a shared prefix equals the multiset union of the branches run alone, in both branch orders, with an instrumented User type",
-         "Shared prefixes with pending constraints (disequalities, plusz/timesz, FD domains, distinctfd) and user-state updates followed by 2-3 branches from the same vocabulary; the user counter is exposed as a query variable. Exploration.",
+         "Shared prefixes with pending constraints (disequalities, plusz/timesz, FD domains, distinctfd) and user-state updates followed by 2-3 branches from the same vocabulary; the user counter is exposed as a query variable when some goal updates it. A second family posts FD constraints before any domain, aims the branches' bindings at one prefix constraint (violate / satisfy / unrelated) and posts the domains after the disjunction. Exploration.",
          "Implementation compared with itself; answers compared up to renaming and constraint equivalence."),
  "C11": (PBT + " against the reference interpreter (project = body evaluated on the walked value per state); failures with >=2 states reaching the goal are the listed known finding",
          "Programs where 0-4 states reach a project goal with non-relational fngoal bodies (also resumed later); multiset equality with the reference and no panic. The single-state cases are fully checked; multi-state cases hit C11-project-reached-twice. Exploration.",
@@ -63,7 +63,7 @@ TABLE = {
          "350 / 6000 generated programs per run (two compiled modules each). Exploration.",
          REFI + " A generated program that fails to compile counts as a generator problem (tolerated up to 2%)."),
  "C16": (PBT + " against brute-force enumeration of the domain product (soundness verdict)",
-         "Generated CLP(FD) programs with aliasing, signed domains, sparse domains, hidden variables, shuffled posting order, list/compound query terms; every answer must be a brute-force solution. Exploration.",
+         "Generated CLP(FD) programs with aliasing, signed domains, sparse domains, hidden variables, shuffled posting order, list/compound query terms; every answer must be a brute-force solution. A wide-domains family uses intervals of up to 300/1200 values and sparse domains of up to 150 values, several per variable. Exploration.",
          "Trusts the brute-force model (model/fdbrute.rs)."),
  "C17": (PBT + " against brute-force enumeration of the domain product (completeness and uniqueness verdict)",
          "Same generator as C16; every brute-force solution projected on the query term must be returned exactly once. Exploration.",
